@@ -1,0 +1,66 @@
+// SPDX-License-Identifier: GPL-3.0-or-later
+
+//go:build verif
+// +build verif
+
+// Package verifhook provides named hook points for external runtime
+// verification. With the "verif" build tag a harness may register a callback
+// per hook point; without a registered callback a hook only counts its hits.
+package verifhook
+
+import (
+	"sync"
+	"sync/atomic"
+)
+
+var (
+	mutex     sync.RWMutex
+	callbacks = map[string]func(){}
+	hits      sync.Map // string -> *int64
+)
+
+// Set registers (or, with a nil callback, removes) the callback for a hook point.
+func Set(name string, f func()) {
+	mutex.Lock()
+	defer mutex.Unlock()
+
+	if f == nil {
+		delete(callbacks, name)
+	} else {
+		callbacks[name] = f
+	}
+}
+
+// Reset removes all callbacks and hit counters.
+func Reset() {
+	mutex.Lock()
+	callbacks = map[string]func(){}
+	mutex.Unlock()
+
+	hits.Range(func(k, _ interface{}) bool {
+		hits.Delete(k)
+		return true
+	})
+}
+
+// Hits returns how often the hook point was passed.
+func Hits(name string) int64 {
+	if v, ok := hits.Load(name); ok {
+		return atomic.LoadInt64(v.(*int64))
+	}
+	return 0
+}
+
+// At marks a hook point: counts the hit and runs the registered callback, if any.
+func At(name string) {
+	v, _ := hits.LoadOrStore(name, new(int64))
+	atomic.AddInt64(v.(*int64), 1)
+
+	mutex.RLock()
+	f := callbacks[name]
+	mutex.RUnlock()
+
+	if f != nil {
+		f()
+	}
+}
